@@ -137,7 +137,7 @@ def anisotropic_grid(ck, prog, tier):
     R0, span = dag.atom("R0"), dag.atom("span")
     R = dag.add(R0, span)
     if tier == "quick":
-        cases = [(3, 1), (4, 1), (4, 2), (4, 3), (5, 2), (5, 4)]
+        cases = [(3, 1), (4, 1), (4, 2), (4, 3), (5, 2), (5, 4), (3, 3)]      # (3, 3): 2^factor == 2^nr_exp must be rejected
         ps = [F(-1, 2), F(0), F(1, 3), F(2, 3), F(9, 10), F(1), F(3, 2)]
     else:
         cases = [(e, a) for e in (2, 3, 4, 5, 6) for a in range(1, e + 1)]
